@@ -134,6 +134,9 @@ def _j_scaled(spec, x, r, prev, entry, validate):
         if n is None:
             return ('F', f'non-integral wire value {x!r} accepted as scaled integer (result {r!r})')
         v = n * scale
+        # on the wire the value and the described limits are integers: no tolerance is needed or documented there
+        if validate and not round(lo / scale) <= n <= round(hi / scale):
+            return ('S', f'wire value {n} accepted although outside the integer limits [{round(lo / scale)}, {round(hi / scale)}]')
     else:
         if not math.isfinite(x):
             return ('F', f'{x!r} accepted')
